@@ -43,6 +43,21 @@ class CaseSpec:
             # the implementation (or the hooks) no longer builds with the generated universe
             disagreements.append(({'op': 'build', 'type_shape': '', 'outcome': 'build-failed'},
                                   {'what': 'cargo build of the harness against /repo failed', 'output': out[-3000:]}))
+            if prop == 'C05':
+                # "the derived code compiles": a definition of the generated program that rustc rejects is a failing input
+                src = open(os.path.join(VERIF, 'harness', 'src', 'gen_types.rs')).read().split('\n')
+                seen = set()
+                for m in re.finditer(r'(error(?:\[E\d+\])?: [^\n]*)\n\s*--> src/gen_types\.rs:(\d+):', out):
+                    ln = int(m.group(2))
+                    # the derive attribute is reported at the #[derive] line: the definition follows it
+                    k = ln - 1
+                    while k < len(src) and not re.match(r'pub (struct|enum) ', src[k]): k += 1
+                    d = src[k] if k < len(src) else src[ln - 1]
+                    if d in seen: continue
+                    seen.add(d)
+                    failures.append(({'op': 'compile', 'type_shape': '', 'rust_type': d.split('{')[0][:80], 'outcome': 'rejected', 'clause': 'compile'},
+                                     {'why': 'compile: the derived code for a definition of the grammar does not compile', 'definition': d,
+                                      'error': m.group(1)[:300], 'lines': [], 'meta': {'kind': 'compile'}}))
             return {'failures': failures, 'disagreements': disagreements,
                     'coverage': {'evaluations': 0, 'distinct_nontrivial': 0, 'rule': self.rule, 'samples': []}}
         names = harness_names()
@@ -654,7 +669,65 @@ def o_c16(meta, ans, ctx):
     return None
 
 
+def split_generic_args(name):
+    """'path<a, b<c>, [d; 2]>' -> ('path', ['a', 'b<c>', '[d; 2]'])"""
+    k = name.find('<')
+    if k < 0 or not name.endswith('>'):
+        return name, []
+    inner, args, depth, cur = name[k + 1:-1], [], 0, ''
+    for ch in inner:
+        if ch in '<[(': depth += 1
+        elif ch in '>])': depth -= 1
+        if ch == ',' and depth == 0:
+            args.append(cur.strip()); cur = ''
+        else:
+            cur += ch
+    if cur.strip(): args.append(cur.strip())
+    return name[:k], args
+
+
+def o_c05(meta, ans, ctx):
+    k = meta.get('kind')
+    u = ctx['u']
+    if k == 'dtype':
+        p = ans.split(' ')
+        if len(p) < 3 or p[0] != 'dtype': return 'shape: ' + ans[:60]
+        if p[1] != 'same':
+            t = u.types[meta['ti']]
+            return 'eps-type: DeserType of %s is %s, the documented substitution gives %s' % (
+                t.rust(), bytes.fromhex(p[2]).decode('utf-8', 'replace'), t.deser_rust())
+        return None
+    if k == 'derive':
+        p = ans.split(' ')
+        if len(p) != 3 or p[0] != 'derive': return 'shape: ' + ans[:60]
+        actual, selfn = (bytes.fromhex(x).decode('utf-8', 'replace') for x in p[1:3])
+        m = re.search(r'replaced=([\d,]*)', ctx.get('model_ans', ''))
+        if not m: return None       # the model did not answer: reported as a disagreement
+        R = set(int(x) for x in m.group(1).split(',') if x)
+        if R != set(meta['literal']):
+            return None             # model and generator differ: reported by the comparer (derive differs)
+        if meta['zero']:
+            if actual != '&' + selfn: return 'zero-ref: the ε-copy type of the zero-copy type %s is %s, not a reference to it' % (selfn, actual)
+            return None
+        pa, aa = split_generic_args(actual)
+        ps, sa = split_generic_args(selfn)
+        if pa != ps or len(aa) != len(sa): return 'eps-type-head: DeserType of %s is %s' % (selfn, actual)
+        for i in range(len(sa)):
+            changed = aa[i] != sa[i]
+            if i >= meta['ntp']:
+                if changed: return 'const-changed: const argument %d of %s changed in %s' % (i, selfn, actual)
+            elif changed and i not in R:
+                return 'replaced-nonliteral: parameter %d of %s is not the type of any field but is replaced in %s' % (i, selfn, actual)
+            elif not changed and i in R and not meta['self_eps'][i]:
+                return 'kept-literal: parameter %d of %s is the type of a field but is not replaced in %s' % (i, selfn, actual)
+        return None
+    if k == 'case':
+        return o_c01(meta, ans, ctx) or o_c02(meta, ans, ctx)
+    return None
+
+
 SPECS = {
+    'C05': CaseSpec(o_c05, 'every derived type of the generated universe (definitions drawn from the grammar: named / tuple / unit structs, unit / tuple / struct variants, type / const / defaulted parameters, phantom parameters, bounds, where-clauses, zero / deep / no copy attribute, repr attributes, nesting of earlier definitions; several instantiations each): the program containing them must compile, the concrete DeserType (core::any::type_name) must be the documented substitution, the model derive of the definition must be the registered type, values round-trip in both modes.'),
     'C01': CaseSpec(o_c01, 'serialize each generated value, deserialize_full the bytes; generated types x boundary-biased values.'),
     'C02': CaseSpec(o_c02, 'serialize each generated value, deserialize_eps from a 128-aligned (and 64 mod 128) buffer and deserialize_full the same bytes.'),
     'C07': CaseSpec(o_c07, 'layout of every zero-copy type; schema rows (real write_bytes/padding events) and byte counts for every generated value.'),
